@@ -9,7 +9,7 @@ import sys
 import tempfile
 from concurrent.futures import ThreadPoolExecutor
 
-from vf.runner import Ctx, Partial, Violation, digest
+from vf.runner import HERE, Ctx, Partial, Violation, digest
 
 
 def _one(ext: str, seeds: list[tuple[str, bytes]], seconds: int, seed: int, empty_corpus: bool):
@@ -35,7 +35,7 @@ def _one(ext: str, seeds: list[tuple[str, bytes]], seconds: int, seed: int, empt
         rounds += 1
         left = max(5, int(t_end - time.time()))
         cmd[7] = f"-max_total_time={left}"
-        p = subprocess.run(cmd, env=env, cwd="/verif", capture_output=True, text=True, errors="replace", timeout=left + 180)
+        p = subprocess.run(cmd, env=env, cwd=HERE, capture_output=True, text=True, errors="replace", timeout=left + 180)
         log = p.stderr[-4000:]
         m = re.search(r"stat::number_of_executed_units:\s*(\d+)", p.stderr)
         execs += int(m.group(1)) if m else 0
